@@ -723,11 +723,29 @@ def replay_loop(ctx, g):
 
     def is_res(x):
         return ng.key(x).startswith(K("placeholders([c[0] for c in self.constraints])")[:-2])
-    if isinstance(it, ast.Call) and ast.unparse(it.func) == "zip" and len(it.args) == 3 and isinstance(l.target, ast.Tuple) and len(l.target.elts) == 3 \
+    if isinstance(it, ast.Call) and ast.unparse(it.func) == "zip" and len(it.args) >= 3 and isinstance(l.target, ast.Tuple) and len(l.target.elts) == len(it.args) \
             and all(isinstance(e, ast.Name) for e in l.target.elts):
-        cv, sv, mv = [e.id for e in l.target.elts]
-        ok = is_res_prefix(it.args[0]) and Norm(None).key(it.args[1]) == K("[c[1] for c in self.constraints]") and Norm(None).key(it.args[2]) == K("[c[2] for c in self.constraints]")
-        return l, cv, sv, mv, ok, ast.unparse(it)[:120]
+        # the columns are recognised by what they iterate over, whatever their order; further columns of the same
+        # table (e.g. the un-substituted expression c[0]) may ride along
+        role = {}
+        for e, a in zip(l.target.elts, it.args):
+            if is_res_prefix(a):
+                role.setdefault("c", e.id)
+            elif Norm(None).key(a) == K("[c[1] for c in self.constraints]"):
+                role.setdefault("scale", e.id)
+            elif Norm(None).key(a) == K("[c[2] for c in self.constraints]"):
+                role.setdefault("meta", e.id)
+            elif Norm(None).key(a) == K("[c[0] for c in self.constraints]"):
+                role.setdefault("orig", e.id)
+            else:
+                role.setdefault("other", e.id)
+        ok = all(k in role for k in ("c", "scale", "meta")) and "other" not in role
+        if not ok and len(it.args) == 3:
+            cv, sv, mv = [e.id for e in l.target.elts]
+            return l, cv, sv, mv, False, ast.unparse(it)[:120]
+        if not ok:
+            return None
+        return l, role["c"], role["scale"], role["meta"], ok, ast.unparse(it)[:120]
     idx = cv = None
     ok = True
     if isinstance(it, ast.Call) and ast.unparse(it.func) == "enumerate" and len(it.args) == 1 and isinstance(l.target, ast.Tuple) and len(l.target.elts) == 2 \
